@@ -76,8 +76,8 @@ func validateIssueTokenBaseFee(i interface{}) error {
 	if !ok {
 		return fmt.Errorf("invalid parameter type: %T", i)
 	}
-	if v.IsNegative() {
-		return fmt.Errorf("base fee for issuing token should not be negative")
+	if !v.IsValid() {
+		return fmt.Errorf("invalid base fee for issuing token: %s", v)
 	}
 	return nil
 }
